@@ -51,7 +51,8 @@ class C13(Scenario):
         nn = rng.choice([2, 2, 3]) if arm != "local" else rng.choice([1, 2])
         salts = rng.sample(SALTS, nn)
         nodes = [{"salt": s} for s in salts]
-        units = [{"k": "P", "op": op} for op in P["ops"]]
+        must = set(P.get("must_succeed", []))
+        units = [dict({"k": "P", "op": op}, **({"must": 1} if len(op) > 1 and op[1] in must else {})) for op in P["ops"]]
         pool0 = list(P["pool"])
         kinds = dict(P["kinds"])
         interest = [p[:2] for p in P["pairs"]]
@@ -392,6 +393,11 @@ class C13(Scenario):
                     faults[op[1]]["fired"] += 1
                     probes["interrupt_inside_comparison"] += 1
                 continue  # rule for faulted ops: the return value is never used
+            if units[ui].get("must") and "raised" in r and units[ui]["k"] == "P":
+                key = ("E0-valid-construction-raises", str(op[2]) + ":" + str(r["raised"]))
+                if key not in seen:
+                    seen.add(key)
+                    viols.append({"clause": key[0], "unit": ui, "fingerprint": key[1], "detail": {"node": node, "salt": plan["nodes"][node]["salt"], "op": op[2], "raised": r["raised"]}})
             if name == "crash":
                 faults["crash"]["configured"] += 1
                 faults["crash"]["fired"] += 1
